@@ -324,6 +324,36 @@ func c19Gateway(l *Lab, rep *Report, rnd *rand.Rand, dir string) {
 		return
 	}
 	defer idp.Close()
+	// a template the reader rejects (or that is missing) is an error of the download, not a reason to
+	// hand out a file built from the built-in defaults
+	for ti, bad := range []string{"audiomode:i:2\r\nthis line has no shape\r\n", "audiomode:i:notanumber\r\n", "screen mode id:x:1\r\n", "full address:s:ok\r\nhalf a li", "<missing file>"} {
+		pth := filepath.Join(dir, fmt.Sprintf("badtpl-%d.rdp", ti))
+		if bad != "<missing file>" {
+			os.WriteFile(pth, []byte(bad), 0600)
+		}
+		b := MustBackend("")
+		g, err := l.StartGateway(&GWConfig{Tls: "disable", Auth: []string{"openid"}, IdP: idp, Hosts: []string{b.Addr()}, HostSelection: "roundrobin", PAASigningKey: StrP(Key32a), Defaults: pth})
+		if err != nil {
+			// refusing to start with such a template is also a rejection
+			rep.Eval(HashStr("bad-template", ti, "not-started"))
+			b.Close()
+			continue
+		}
+		br := NewBrowser(g, "")
+		br.Login("tpluser", "")
+		f, r, err := br.Download("")
+		st := 0
+		if r != nil {
+			st = r.Status
+		}
+		rep.Eval(HashStr("bad-template", ti, st))
+		rep.Count("malformed_template_downloads", 1)
+		if err == nil && f != nil && st == 200 && f.Settings["gatewayaccesstoken"] != "" {
+			rep.Violate("C19/malformed-template-silently-skipped", fmt.Sprintf("the configured template (%q) is rejected by the reader, /connect nevertheless answered 200 with a connection file", trunc(bad, 40)), map[string]any{"body": trunc(f.Raw, 400)})
+		}
+		g.Stop()
+		b.Close()
+	}
 	for i := 0; i < l.Pick(6, 40); i++ {
 		a := rdp.NewBuilder()
 		c19Randomise(rnd, &a.Settings, 40)
